@@ -33,6 +33,8 @@ enum Case {
     Text { text: String },
     /// values the library generates itself: `random()` and `Default` of the ids and the context
     Generated,
+    /// the context round trip, called while the calling thread's local storage is torn down
+    Teardown { trace: String, span: String, sampled: bool },
 }
 
 fn u128_classes() -> impl Strategy<Value = u128> {
@@ -151,6 +153,9 @@ fn case_strategy(variant: &str) -> BoxedStrategy<(Case, bool)> {
                 if roll == 0 {
                     return (Case::Generated, false);
                 }
+                if roll == 1 {
+                    return (Case::Teardown { trace: format!("{:x}", t), span: format!("{:x}", s), sampled: b }, true);
+                }
                 let boundary = t == 0 || t == u128::MAX || t.count_ones() == 1 || t >> 127 == 1 || s == 0 || s == u64::MAX || s.count_ones() == 1 || s >> 63 == 1;
                 (Case::Ctx { trace: format!("{:x}", t), span: format!("{:x}", s), sampled: b }, boundary)
             })
@@ -176,6 +181,7 @@ fn run_case(c: &Case) -> Vec<Viol> {
         }
         Case::Text { text } => check_text(text),
         Case::Generated => check_generated_values(),
+        Case::Teardown { trace, span, sampled } => check_in_teardown(u128::from_str_radix(trace, 16).unwrap(), u64::from_str_radix(span, 16).unwrap(), *sampled),
     }
 }
 
@@ -210,6 +216,7 @@ fn worker(args: &[String]) -> i32 {
             let label = match &c {
                 Case::Ctx { .. } => "context".to_string(),
                 Case::Generated => "values from random()/default()".to_string(),
+                Case::Teardown { .. } => "context, from thread-local destructors".to_string(),
                 Case::Text { text } => match reference(text) {
                     Ref::MustNone(w) => format!("text: {}", w),
                     Ref::Values { canonical: true, .. } => "text: canonical".to_string(),
